@@ -1099,3 +1099,462 @@ Proof.
     destruct (z * 2 ^ (- e) ?= m) eqn:C; [apply Z.compare_eq in C; split; auto| |];
       (split; [discriminate|intros <-; rewrite Z.compare_refl in C; discriminate]).
 Qed.
+
+(* ================================================================= < : irreflexive, asymmetric, transitive *)
+
+Lemma lt_spec_some : forall a b r, lt_spec a b = Some r ->
+  (exists x y, a = VStr x /\ b = VStr y /\ r = str_ltb x y) \/
+  (exists x y, xnum_of a = Some x /\ xnum_of b = Some y /\ r = xlt x y).
+Proof.
+  intros a b r H. destruct a, b; cbn [lt_spec] in H; try discriminate;
+    try (left; do 2 eexists; repeat split; congruence);
+    right;
+    repeat match type of H with context [xnum_of (VFloat ?f)] => rewrite (xnum_of_float f) in H end;
+    cbn [xnum_of] in H; inversion H; subst;
+    do 2 eexists; repeat split; try reflexivity; apply xnum_of_float.
+Qed.
+
+Lemma lt_spec_num : forall a b x y, xnum_of a = Some x -> xnum_of b = Some y -> lt_spec a b = Some (xlt x y).
+Proof.
+  intros a b x y Ha Hb.
+  destruct a; try (cbn in Ha; discriminate Ha); destruct b; try (cbn in Hb; discriminate Hb);
+    cbn [lt_spec]; rewrite Ha, Hb; reflexivity.
+Qed.
+
+Lemma xnum_of_str : forall s, xnum_of (VStr s) = None.
+Proof. reflexivity. Qed.
+
+Lemma lt_spec_irrefl : forall a r, lt_spec a a = Some r -> r = false.
+Proof.
+  intros a r H. apply lt_spec_some in H. destruct H as [(x & y & -> & E & ->)|(x & y & Hx & Hy & ->)].
+  - inversion E; subst. apply str_ltb_irrefl.
+  - rewrite Hx in Hy. inversion Hy; subst. apply xlt_irrefl.
+Qed.
+
+Lemma lt_spec_asym : forall a b, lt_spec a b = Some true -> lt_spec b a = Some false.
+Proof.
+  intros a b H. apply lt_spec_some in H. destruct H as [(x & y & -> & -> & E)|(x & y & Hx & Hy & E)].
+  - cbn. f_equal. apply str_ltb_asym. congruence.
+  - rewrite (lt_spec_num b a y x Hy Hx). f_equal. apply xlt_asym. congruence.
+Qed.
+
+Lemma lt_spec_trans : forall a b c,
+  lt_spec a b = Some true -> lt_spec b c = Some true -> lt_spec a c = Some true.
+Proof.
+  intros a b c H1 H2. apply lt_spec_some in H1. apply lt_spec_some in H2.
+  destruct H1 as [(x & y & -> & -> & E1)|(x & y & Hx & Hy & E1)];
+    destruct H2 as [(y' & z & Eb & -> & E2)|(y' & z & Hy' & Hz & E2)].
+  - inversion Eb; subst. cbn. f_equal. eapply str_ltb_trans; eauto.
+  - cbn in Hy'. discriminate.
+  - subst b. cbn in Hy. discriminate.
+  - rewrite Hy in Hy'. inversion Hy'; subst. rewrite (lt_spec_num a c x z Hx Hz). f_equal.
+    eapply xlt_trans; eauto.
+Qed.
+
+Lemma vless_cases : forall a b, (exists r, vless a b = Ok r) \/ vless a b = Err None \/ vless a b = Unsup.
+Proof. intros a b. destruct a, b; cbn; eauto; destruct (fl_of_int _); eauto. Qed.
+
+Lemma vless_irrefl : forall a r, vless a a = Ok r -> r = false.
+Proof. intros a r H. apply vless_spec in H. eapply lt_spec_irrefl. exact H. Qed.
+
+Lemma vless_ok_flip : forall a b r, vless a b = Ok r -> exists r', vless b a = Ok r'.
+Proof. intros a b r. destruct a, b; cbn; try discriminate; eauto; destruct (fl_of_int _); try discriminate; eauto. Qed.
+
+Lemma vless_asym : forall a b, vless a b = Ok true -> vless b a = Ok false.
+Proof.
+  intros a b H. destruct (vless_ok_flip _ _ _ H) as [r' H']. rewrite H'.
+  apply vless_spec in H. apply vless_spec in H'. rewrite (lt_spec_asym _ _ H) in H'. congruence.
+Qed.
+
+(* whatever boolean a<c answers after a<b and b<c, it is true; it can only fail to answer for an int
+   that is not exactly a float (outside the exact model) *)
+Lemma vless_trans_gen : forall a b c, vless a b = Ok true -> vless b c = Ok true ->
+  vless a c = Ok true \/ vless a c = Unsup.
+Proof.
+  intros a b c H1 H2. apply vless_spec in H1. apply vless_spec in H2.
+  pose proof (lt_spec_trans _ _ _ H1 H2) as H3.
+  destruct (vless_cases a c) as [[r Hr]|[He|Hu]].
+  - left. pose proof (vless_spec _ _ _ Hr) as Hs. congruence.
+  - exfalso. assert (E : is_err (vless a c) = true) by (rewrite He; reflexivity).
+    apply vless_err_spec in E. congruence.
+  - right. exact Hu.
+Qed.
+
+Lemma vless_supported : forall a b, small_ints a = true -> small_ints b = true ->
+  is_errtext a = false -> is_errtext b = false -> vless a b <> Unsup.
+Proof.
+  intros a b Sa Sb Ea Eb. destruct a, b; cbn in *; try discriminate.
+  - destruct (fl_of_int_small z Sa) as [fx E]. rewrite E. discriminate.
+  - destruct (fl_of_int_small z Sb) as [fx E]. rewrite E. discriminate.
+Qed.
+
+Lemma lt_spec_not_errtext : forall a b r, lt_spec a b = Some r -> is_errtext a = false /\ is_errtext b = false.
+Proof. intros a b r. destruct a, b; cbn; try discriminate; auto. Qed.
+
+Lemma vless_trans : forall a b c, small_ints a = true -> small_ints c = true ->
+  vless a b = Ok true -> vless b c = Ok true -> vless a c = Ok true.
+Proof.
+  intros a b c Sa Sc H1 H2. destruct (vless_trans_gen _ _ _ H1 H2) as [H|H]; [exact H|]. exfalso.
+  apply vless_spec in H1. apply vless_spec in H2.
+  destruct (lt_spec_not_errtext _ _ _ H1) as [Ea _]. destruct (lt_spec_not_errtext _ _ _ H2) as [_ Ec].
+  exact (vless_supported a c Sa Sc Ea Ec H).
+Qed.
+
+(* ================================================================= the derived operators *)
+
+Lemma calc_eq_is : forall a b, calc op_eq a b = rbool (veq a b).
+Proof. reflexivity. Qed.
+
+Lemma calc_lt_is : forall a b, calc op_lt a b = rbool (vless a b).
+Proof. reflexivity. Qed.
+
+Lemma ne_is_not_eq : forall a b, calc op_ne a b = rbool (neg_res (veq a b)).
+Proof. intros a b. change (calc op_ne a b) with
+    (match veq a b with Ok r => Ok (VBool (negb r)) | Err t => Err t | Panic => Panic | OOF => OOF | Unsup => Unsup end).
+  destruct (veq a b); reflexivity.
+Qed.
+
+Lemma gt_is_flip : forall a b, calc op_gt a b = calc op_lt b a.
+Proof. reflexivity. Qed.
+
+Lemma calc_le_is : forall a b,
+  calc op_le a b = match vless a b with
+                   | Ok true => Ok (VBool true)
+                   | Ok false => calc op_eq a b
+                   | Err t => Err t | Panic => Panic | OOF => OOF | Unsup => Unsup
+                   end.
+Proof. reflexivity. Qed.
+
+(* a<=b holds exactly when a<b or a=b, wherever < is defined; where it is not, <= is an error *)
+Lemma le_is_lt_or_eq : forall a b l e, vless a b = Ok l -> veq a b = Ok e ->
+  calc op_le a b = Ok (VBool (l || e)).
+Proof. intros a b l e Hl He. rewrite calc_le_is, Hl, calc_eq_is, He. destruct l; reflexivity. Qed.
+
+Lemma le_undefined : forall a b, is_err (vless a b) = true -> is_err (calc op_le a b) = true.
+Proof. intros a b. rewrite calc_le_is. destruct (vless a b) as [[|]| | | |]; cbn; congruence. Qed.
+
+(* where < answers, = answers too and is symmetric (both operands are numbers or both strings) *)
+Lemma vless_ok_veq : forall a b r, vless a b = Ok r ->
+  veq a b = eq_scalar a b /\ veq b a = eq_scalar b a /\ exists e, eq_scalar a b = Ok e.
+Proof.
+  intros a b r. destruct a, b; cbn [vless]; try discriminate; intros H; repeat split; cbn [eq_scalar]; eauto;
+    destruct (fl_of_int _); try discriminate; eauto.
+Qed.
+
+Lemma ge_is_flip_le : forall a b, calc op_ge a b = calc op_le b a.
+Proof.
+  intros a b. rewrite calc_le_is.
+  change (calc op_ge a b) with
+    (match vless b a with
+     | Ok true => Ok (VBool true)
+     | Ok false => rbool (veq a b)
+     | Err t => Err t | Panic => Panic | OOF => OOF | Unsup => Unsup
+     end).
+  destruct (vless b a) as [[|]| | | |] eqn:E; try reflexivity.
+  rewrite calc_eq_is. destruct (vless_ok_veq _ _ _ E) as (E1 & E2 & _). rewrite E1, E2, eq_scalar_sym. reflexivity.
+Qed.
+
+(* on numbers (no NaN) and on strings <= is total and antisymmetric up to = *)
+Lemma le_antisym : forall a b, calc op_le a b = Ok (VBool true) -> calc op_le b a = Ok (VBool true) ->
+  calc op_eq a b = Ok (VBool true).
+Proof.
+  intros a b. rewrite !calc_le_is, !calc_eq_is.
+  destruct (vless a b) as [[|]| | | |] eqn:E1; try discriminate.
+  - rewrite (vless_asym _ _ E1). destruct (vless_ok_veq _ _ _ E1) as (Ea & Eb & _).
+    rewrite Ea, Eb, (eq_scalar_sym b a). auto.
+  - auto.
+Qed.
+
+(* ================================================================= membership *)
+
+Lemma calc_in_item : forall x l,
+  match x with VList _ => False | _ => True end -> calc op_in x (VList l) = rbool (contains_item x l).
+Proof. intros x l. destruct x; intros H; try contradiction; reflexivity. Qed.
+
+(* true: some element equals x and every element before it is comparable and different *)
+Lemma contains_item_true : forall x l,
+  contains_item x l = Ok true <->
+  exists l1 y l2, l = l1 ++ y :: l2 /\ veq x y = Ok true /\ Forall (fun z => veq x z = Ok false) l1.
+Proof.
+  intros x l. induction l as [|y l IH]; cbn [contains_item]; unfold equal_fg.
+  - split; [discriminate|]. intros (l1 & y & l2 & E & _). destruct l1; discriminate.
+  - destruct (veq x y) as [[|]| | | |] eqn:E.
+    + split; [|reflexivity]. intros _. exists [], y, l. repeat split; [exact E|constructor].
+    + rewrite IH. split.
+      * intros (l1 & y' & l2 & -> & Hy & Hl). exists (y :: l1), y', l2. repeat split; [exact Hy|constructor; assumption].
+      * intros (l1 & y' & l2 & El & Hy & Hl). destruct l1 as [|z l1]; cbn in El; inversion El; subst; [congruence|].
+        inversion Hl; subst. exists l1, y', l2. auto.
+    + split; [discriminate|]. intros (l1 & y' & l2 & El & Hy & Hl).
+      destruct l1 as [|z l1]; cbn in El; inversion El; subst; [congruence|]. inversion Hl; subst. congruence.
+    + split; [discriminate|]. intros (l1 & y' & l2 & El & Hy & Hl).
+      destruct l1 as [|z l1]; cbn in El; inversion El; subst; [congruence|]. inversion Hl; subst. congruence.
+    + split; [discriminate|]. intros (l1 & y' & l2 & El & Hy & Hl).
+      destruct l1 as [|z l1]; cbn in El; inversion El; subst; [congruence|]. inversion Hl; subst. congruence.
+    + split; [discriminate|]. intros (l1 & y' & l2 & El & Hy & Hl).
+      destruct l1 as [|z l1]; cbn in El; inversion El; subst; [congruence|]. inversion Hl; subst. congruence.
+Qed.
+
+Lemma contains_item_false : forall x l,
+  contains_item x l = Ok false <-> Forall (fun z => veq x z = Ok false) l.
+Proof.
+  intros x l. induction l as [|y l IH]; cbn [contains_item]; unfold equal_fg.
+  - split; [constructor|reflexivity].
+  - destruct (veq x y) as [[|]| | | |] eqn:E;
+      try (split; [discriminate|intros H; inversion H; congruence]).
+    rewrite IH. split; [intros H; constructor; assumption|intros H; inversion H; assumption].
+Qed.
+
+(* an error: an element that cannot be compared comes before any equal one *)
+Lemma contains_item_err : forall x l, is_err (contains_item x l) = true <->
+  exists l1 y l2, l = l1 ++ y :: l2 /\ is_err (veq x y) = true /\ Forall (fun z => veq x z = Ok false) l1.
+Proof.
+  intros x l. induction l as [|y l IH]; cbn [contains_item]; unfold equal_fg.
+  - split; [discriminate|]. intros (l1 & y & l2 & E & _). destruct l1; discriminate.
+  - destruct (veq x y) as [[|]| | | |] eqn:E;
+      try (split; [intros _; exists [], y, l; repeat split; [rewrite E; reflexivity|constructor]|reflexivity]);
+      try (split; [discriminate|]; intros (l1 & y' & l2 & El & Hy & Hl);
+           destruct l1 as [|z l1]; cbn in El; inversion El; subst;
+           [rewrite E in Hy; discriminate|inversion Hl; subst; congruence]).
+    rewrite IH. split.
+    + intros (l1 & y' & l2 & -> & Hy & Hl). exists (y :: l1), y', l2. repeat split; [exact Hy|constructor; assumption].
+    + intros (l1 & y' & l2 & El & Hy & Hl). destruct l1 as [|z l1]; cbn in El; inversion El; subst.
+      * rewrite E in Hy. discriminate.
+      * inversion Hl; subst. exists l1, y', l2. auto.
+Qed.
+
+(* with a list on the left ~ is multiset containment: an equal element is not found, ... *)
+Lemma member_list_refuted :
+  let x := VList [VInt 1] in let l := [VList [VInt 1]; VList [VInt 2]] in
+  (exists y, In y l /\ veq x y = Ok true) /\ calc op_in x (VList l) = Err None.
+Proof. cbv zeta. split; [exists (VList [VInt 1]); split; [left; reflexivity|reflexivity]|reflexivity]. Qed.
+
+(* ... and true is answered although no element equals the left operand *)
+Lemma member_list_refuted2 :
+  let x := VList [VInt 2; VInt 3] in let l := [VInt 1; VInt 2; VInt 3] in
+  Forall (fun y => veq x y = Err None) l /\ calc op_in x (VList l) = Ok (VBool true).
+Proof. cbv zeta. split; [repeat constructor|reflexivity]. Qed.
+
+(* ================================================================= definedness: an error exactly outside the tables *)
+
+Lemma all_kinds_complete : forall k, In k all_kinds.
+Proof. destruct k; cbn; tauto. Qed.
+
+Lemma kind_defined_sound : forall op a b, In op matrix_ops ->
+  is_errtext a = false -> is_errtext b = false ->
+  kind_defined op (kind_of a) (kind_of b) = false -> calc op a b = Err None.
+Proof.
+  intros op a b Hin. unfold matrix_ops in Hin.
+  repeat (destruct Hin as [<-|Hin]; [destruct a, b; cbn; intros; try discriminate; reflexivity|]).
+  contradiction.
+Qed.
+
+(* inside the tables of = and < (scalar kinds) the answer is never an error *)
+Lemma lt_defined : forall a b, is_errtext a = false -> is_errtext b = false ->
+  lt_kinds_ok (kind_of a) (kind_of b) = true -> is_err (calc op_lt a b) = false.
+Proof.
+  intros a b Ea Eb. rewrite calc_lt_is. destruct a, b; cbn in *; try discriminate; intros _; try reflexivity;
+    destruct (fl_of_int _); reflexivity.
+Qed.
+
+Lemma eq_defined_scalar : forall a b, is_errtext a = false -> is_errtext b = false ->
+  match a, b with VList _, VList _ | VMap _, VMap _ => False | _, _ => True end ->
+  eq_kinds_ok (kind_of a) (kind_of b) = true -> is_err (calc op_eq a b) = false.
+Proof.
+  intros a b Ea Eb. rewrite calc_eq_is. destruct a, b; cbn in *; try discriminate; try contradiction; intros _ _;
+    try reflexivity; destruct (fl_of_int _); reflexivity.
+Qed.
+
+Lemma registered_is_kind_defined : forall tbl, definedness_matches tbl = true ->
+  forall op ka kb, In op matrix_ops -> registered tbl op ka kb = kind_defined op ka kb.
+Proof.
+  intros tbl H op ka kb Hin. unfold definedness_matches in H. rewrite forallb_forall in H.
+  specialize (H op Hin). rewrite forallb_forall in H. specialize (H ka (all_kinds_complete ka)).
+  rewrite forallb_forall in H. specialize (H kb (all_kinds_complete kb)).
+  apply Bool.eqb_prop in H. exact H.
+Qed.
+
+Lemma incomparable_by_table : forall tbl, definedness_matches tbl = true ->
+  forall op a b, In op matrix_ops -> is_errtext a = false -> is_errtext b = false ->
+  registered tbl op (kind_of a) (kind_of b) = false -> calc op a b = Err None.
+Proof.
+  intros tbl H op a b Hin Ea Eb Hr. apply kind_defined_sound; try assumption.
+  rewrite <- (registered_is_kind_defined tbl H op _ _ Hin). exact Hr.
+Qed.
+
+Lemma lt_kinds_ok_sym : forall ka kb, lt_kinds_ok ka kb = lt_kinds_ok kb ka.
+Proof. destruct ka, kb; reflexivity. Qed.
+
+Lemma in_matrix_eq : In op_eq matrix_ops. Proof. cbn. tauto. Qed.
+Lemma in_matrix_lt : In op_lt matrix_ops. Proof. cbn. tauto. Qed.
+
+(* the derived operators are errors wherever the matrices of = and < have no entry *)
+Lemma derived_incomparable : forall tbl, definedness_matches tbl = true ->
+  forall a b, is_errtext a = false -> is_errtext b = false ->
+  (registered tbl op_eq (kind_of a) (kind_of b) = false -> calc op_ne a b = Err None) /\
+  (registered tbl op_lt (kind_of b) (kind_of a) = false -> calc op_gt a b = Err None) /\
+  (registered tbl op_lt (kind_of a) (kind_of b) = false -> calc op_le a b = Err None) /\
+  (registered tbl op_lt (kind_of b) (kind_of a) = false -> calc op_ge a b = Err None).
+Proof.
+  intros tbl H a b Ea Eb. repeat split; intros Hr.
+  - pose proof (incomparable_by_table tbl H op_eq a b in_matrix_eq Ea Eb Hr) as E.
+    rewrite calc_eq_is in E. rewrite ne_is_not_eq. destruct (veq a b) as [[|]| | | |]; cbn in *; congruence.
+  - rewrite gt_is_flip. exact (incomparable_by_table tbl H op_lt b a in_matrix_lt Eb Ea Hr).
+  - pose proof (incomparable_by_table tbl H op_lt a b in_matrix_lt Ea Eb Hr) as E.
+    rewrite calc_lt_is in E. rewrite calc_le_is. destruct (vless a b) as [[|]| | | |]; cbn in *; congruence.
+  - rewrite ge_is_flip_le. pose proof (incomparable_by_table tbl H op_lt b a in_matrix_lt Eb Ea Hr) as E.
+    rewrite calc_lt_is in E. rewrite calc_le_is. destruct (vless b a) as [[|]| | | |]; cbn in *; congruence.
+Qed.
+
+(* ================================================================= min and max pick by < *)
+
+Lemma min_two : forall a b,
+  run_static n_min [a; b] = match vless b a with
+                            | Ok true => Ok b | Ok false => Ok a
+                            | Err t => Err t | Panic => Panic | OOF => OOF | Unsup => Unsup
+                            end.
+Proof. intros a b. change (run_static n_min [a; b]) with (pick_min a [b]). cbn [pick_min].
+  destruct (vless b a) as [[|]| | | |]; reflexivity. Qed.
+
+Lemma max_two : forall a b,
+  run_static n_max [a; b] = match vless a b with
+                            | Ok true => Ok b | Ok false => Ok a
+                            | Err t => Err t | Panic => Panic | OOF => OOF | Unsup => Unsup
+                            end.
+Proof. intros a b. change (run_static n_max [a; b]) with (pick_max a [b]). cbn [pick_max].
+  destruct (vless a b) as [[|]| | | |]; reflexivity. Qed.
+
+Lemma min_static_is_pick : forall m l, run_static n_min (m :: l) = pick_min m l.
+Proof. reflexivity. Qed.
+Lemma max_static_is_pick : forall m l, run_static n_max (m :: l) = pick_max m l.
+Proof. reflexivity. Qed.
+
+Lemma in_shuffle1 : forall (y m v : value) seen l, In y (m :: seen ++ v :: l) -> In y (v :: (m :: seen) ++ l).
+Proof.
+  intros y m v seen l [->|H]; [right; left; reflexivity|]. apply in_app_or in H. destruct H as [H|[->|H]].
+  - right. right. apply in_or_app. left. exact H.
+  - left. reflexivity.
+  - right. right. apply in_or_app. right. exact H.
+Qed.
+
+Lemma in_shuffle2 : forall (y m v : value) seen l, In y (m :: seen ++ v :: l) -> In y (m :: (v :: seen) ++ l).
+Proof.
+  intros y m v seen l [->|H]; [left; reflexivity|]. apply in_app_or in H. destruct H as [H|[->|H]].
+  - right. right. apply in_or_app. left. exact H.
+  - right. left. reflexivity.
+  - right. right. apply in_or_app. right. exact H.
+Qed.
+
+(* the result is one of the arguments and no argument is smaller (by the exact order) *)
+Lemma pick_min_spec : forall l m seen r,
+  Forall (fun y => lt_spec y m <> Some true) (m :: seen) ->
+  pick_min m l = Ok r ->
+  In r (m :: l) /\ Forall (fun y => lt_spec y r <> Some true) (m :: seen ++ l).
+Proof.
+  induction l as [|v l IH]; intros m seen r Hinv H; cbn [pick_min] in H.
+  - inversion H; subst. rewrite app_nil_r. split; [left; reflexivity|exact Hinv].
+  - destruct (vless v m) as [[|]| | | |] eqn:E; try discriminate.
+    + (* v < m: v becomes the minimum *)
+      pose proof (vless_spec _ _ _ E) as Ev.
+      assert (Hinv' : Forall (fun y => lt_spec y v <> Some true) (v :: m :: seen)).
+      { constructor.
+        - intros C. apply lt_spec_irrefl in C. discriminate.
+        - rewrite Forall_forall in Hinv |- *. intros y Hy C. apply (Hinv y Hy).
+          eapply lt_spec_trans; eassumption. }
+      destruct (IH v (m :: seen) r Hinv' H) as [Hin Hall]. split.
+      * destruct Hin as [->|Hin]; [right; left; reflexivity|right; right; exact Hin].
+      * rewrite Forall_forall in Hall |- *. intros y Hy. apply Hall. apply in_shuffle1. exact Hy.
+    + pose proof (vless_spec _ _ _ E) as Ev.
+      assert (Hinv' : Forall (fun y => lt_spec y m <> Some true) (m :: v :: seen)).
+      { inversion Hinv; subst. constructor; [assumption|]. constructor; [congruence|assumption]. }
+      destruct (IH m (v :: seen) r Hinv' H) as [Hin Hall]. split.
+      * destruct Hin as [->|Hin]; [left; reflexivity|right; right; exact Hin].
+      * rewrite Forall_forall in Hall |- *. intros y Hy. apply Hall. apply in_shuffle2. exact Hy.
+Qed.
+
+Lemma pick_min_least : forall m l r, pick_min m l = Ok r ->
+  In r (m :: l) /\ Forall (fun y => lt_spec y r <> Some true) (m :: l).
+Proof.
+  intros m l r H. apply (pick_min_spec l m [] r); [|exact H].
+  constructor; [|constructor]. intros C. apply lt_spec_irrefl in C. discriminate.
+Qed.
+
+Lemma pick_max_spec : forall l m seen r,
+  Forall (fun y => lt_spec m y <> Some true) (m :: seen) ->
+  pick_max m l = Ok r ->
+  In r (m :: l) /\ Forall (fun y => lt_spec r y <> Some true) (m :: seen ++ l).
+Proof.
+  induction l as [|v l IH]; intros m seen r Hinv H; cbn [pick_max] in H.
+  - inversion H; subst. rewrite app_nil_r. split; [left; reflexivity|exact Hinv].
+  - destruct (vless m v) as [[|]| | | |] eqn:E; try discriminate.
+    + pose proof (vless_spec _ _ _ E) as Ev.
+      assert (Hinv' : Forall (fun y => lt_spec v y <> Some true) (v :: m :: seen)).
+      { constructor.
+        - intros C. apply lt_spec_irrefl in C. discriminate.
+        - rewrite Forall_forall in Hinv |- *. intros y Hy C. apply (Hinv y Hy).
+          eapply lt_spec_trans; eassumption. }
+      destruct (IH v (m :: seen) r Hinv' H) as [Hin Hall]. split.
+      * destruct Hin as [->|Hin]; [right; left; reflexivity|right; right; exact Hin].
+      * rewrite Forall_forall in Hall |- *. intros y Hy. apply Hall. apply in_shuffle1. exact Hy.
+    + pose proof (vless_spec _ _ _ E) as Ev.
+      assert (Hinv' : Forall (fun y => lt_spec m y <> Some true) (m :: v :: seen)).
+      { inversion Hinv; subst. constructor; [assumption|]. constructor; [congruence|assumption]. }
+      destruct (IH m (v :: seen) r Hinv' H) as [Hin Hall]. split.
+      * destruct Hin as [->|Hin]; [left; reflexivity|right; right; exact Hin].
+      * rewrite Forall_forall in Hall |- *. intros y Hy. apply Hall. apply in_shuffle2. exact Hy.
+Qed.
+
+Lemma pick_max_greatest : forall m l r, pick_max m l = Ok r ->
+  In r (m :: l) /\ Forall (fun y => lt_spec r y <> Some true) (m :: l).
+Proof.
+  intros m l r H. apply (pick_max_spec l m [] r); [|exact H].
+  constructor; [|constructor]. intros C. apply lt_spec_irrefl in C. discriminate.
+Qed.
+
+(* an incomparable argument makes min/max fail: they never answer across kinds *)
+Lemma pick_min_err : forall m v l, is_err (vless v m) = true -> is_err (pick_min m (v :: l)) = true.
+Proof. intros m v l. cbn [pick_min]. destruct (vless v m) as [[|]| | | |]; cbn; congruence. Qed.
+
+Lemma pick_max_err : forall m v l, is_err (vless m v) = true -> is_err (pick_max m (v :: l)) = true.
+Proof. intros m v l. cbn [pick_max]. destruct (vless m v) as [[|]| | | |]; cbn; congruence. Qed.
+
+(* ================================================================= membership, stated on the operator *)
+
+Definition not_a_list (x : value) : Prop := match x with VList _ => False | _ => True end.
+
+Lemma rbool_true : forall r, rbool r = Ok (VBool true) <-> r = Ok true.
+Proof. intros [[|]| | | |]; cbn; split; congruence. Qed.
+Lemma rbool_false : forall r, rbool r = Ok (VBool false) <-> r = Ok false.
+Proof. intros [[|]| | | |]; cbn; split; congruence. Qed.
+Lemma rbool_err : forall r, is_err (rbool r) = is_err r.
+Proof. intros [[|]| | | |]; reflexivity. Qed.
+
+Lemma member_true_iff : forall x l, not_a_list x ->
+  (calc op_in x (VList l) = Ok (VBool true) <->
+   exists l1 y l2, l = l1 ++ y :: l2 /\ veq x y = Ok true /\ Forall (fun z => veq x z = Ok false) l1).
+Proof. intros x l H. rewrite (calc_in_item x l H), rbool_true. apply contains_item_true. Qed.
+
+Lemma member_false_iff : forall x l, not_a_list x ->
+  (calc op_in x (VList l) = Ok (VBool false) <-> Forall (fun z => veq x z = Ok false) l).
+Proof. intros x l H. rewrite (calc_in_item x l H), rbool_false. apply contains_item_false. Qed.
+
+Lemma member_err_iff : forall x l, not_a_list x ->
+  (is_err (calc op_in x (VList l)) = true <->
+   exists l1 y l2, l = l1 ++ y :: l2 /\ is_err (veq x y) = true /\ Forall (fun z => veq x z = Ok false) l1).
+Proof. intros x l H. rewrite (calc_in_item x l H), rbool_err. apply contains_item_err. Qed.
+
+(* when every comparison answers: x ~ l holds exactly when some element equals x *)
+Lemma member_exists : forall x l, not_a_list x -> Forall (fun z => exists r, veq x z = Ok r) l ->
+  (calc op_in x (VList l) = Ok (VBool true) <-> exists y, In y l /\ veq x y = Ok true).
+Proof.
+  intros x l H Hall. rewrite (member_true_iff x l H). split.
+  - intros (l1 & y & l2 & -> & Hy & _). exists y. split; [apply in_or_app; right; left; reflexivity|exact Hy].
+  - intros (y & Hin & Hy). induction l as [|z l IH]; [destruct Hin|].
+    inversion Hall as [|? ? [r Hz] Hrest]; subst. destruct r.
+    + exists [], z, l. repeat split; [exact Hz|constructor].
+    + destruct Hin as [->|Hin]; [congruence|].
+      destruct (IH Hrest Hin) as (l1 & y' & l2 & -> & Hy' & Hl1).
+      exists (z :: l1), y', l2. repeat split; [exact Hy'|constructor; assumption].
+Qed.
+
+Lemma equal_fg_is_veq : forall a b, equal_fg a b = veq a b.
+Proof. reflexivity. Qed.
